@@ -1042,21 +1042,22 @@ impl<T: Send> AsyncReceiver<T> {
     let closed = self.closed.load(Ordering::Relaxed);
     if self.is_registered {
       let state_ptr = &*self.state as *const AtomicU8;
-      if self
-        .state
-        .compare_exchange(
-          STATE_WAITING,
-          STATE_CANCELLED,
-          Ordering::SeqCst,
-          Ordering::SeqCst,
-        )
-        .is_ok()
-      {
-        // Eagerly unlink before mem::forget so the pointer doesn't dangle.
-        let mut guard = self.shared.internal.lock();
-        guard
-          .waiting_async_receivers
-          .retain(|w| w.state != state_ptr);
+      match self.state.compare_exchange(
+        STATE_WAITING,
+        STATE_CANCELLED,
+        Ordering::SeqCst,
+        Ordering::SeqCst,
+      ) {
+        Ok(_) => {
+          // Eagerly unlink before mem::forget so the pointer doesn't dangle.
+          let mut guard = self.shared.internal.lock();
+          guard
+            .waiting_async_receivers
+            .retain(|w| w.state != state_ptr);
+        }
+        // The parked stream was notified of a queued item it will never take.
+        Err(STATE_SUCCESS_SPACE) => self.shared.forward_recv_wake(),
+        Err(_) => {}
       }
     }
     let shared = unsafe { std::ptr::read(&self.shared) };
@@ -1097,20 +1098,21 @@ impl<T: Send> Drop for AsyncReceiver<T> {
     let _ = self.close();
     if self.is_registered {
       let state_ptr = &*self.state as *const AtomicU8;
-      if self
-        .state
-        .compare_exchange(
-          STATE_WAITING,
-          STATE_CANCELLED,
-          Ordering::SeqCst,
-          Ordering::SeqCst,
-        )
-        .is_ok()
-      {
-        let mut guard = self.shared.internal.lock();
-        guard
-          .waiting_async_receivers
-          .retain(|w| w.state != state_ptr);
+      match self.state.compare_exchange(
+        STATE_WAITING,
+        STATE_CANCELLED,
+        Ordering::SeqCst,
+        Ordering::SeqCst,
+      ) {
+        Ok(_) => {
+          let mut guard = self.shared.internal.lock();
+          guard
+            .waiting_async_receivers
+            .retain(|w| w.state != state_ptr);
+        }
+        // The parked stream was notified of a queued item it will never take.
+        Err(STATE_SUCCESS_SPACE) => self.shared.forward_recv_wake(),
+        Err(_) => {}
       }
     }
   }
